@@ -69,6 +69,24 @@ CHECKS.update({
                 note="Declined: the block at any extra-axis position equals the cube of the corresponding 1-D slices (values). ccube.shape is deliberately not checked (not on any result path). Unrecognised formulations are UNDECIDED.", ref="4 C13"),
 })
 
+CHECKS.update({
+    "C02": dict(cat="other", technique="differencing typestate over every ffunc reduce (per configuration), corner/cell agreement in the aggregate algebra, predicate extraction, taint + numeric-kind of the inferred extent, structural rule for the differencing routine",
+                text="Decides the structural conditions under which the reconstructed common cells are right: every region of every index-cube aggregate is differenced exactly once before it is trimmed/tested/returned (156 region x configuration instances); ffunc_count's corner values are the all-rows instances of its per-cell values; unweighted count reports missing exactly where the trimmed differenced count is zero; the inferred extent is max(entries, common)+1 in Python ints; the differencing routine writes margin - sum(uncommon) at the dimension's own common coordinate, axis by axis.",
+                note="Declined: every cell equals the brute-force contingency count for all data (values). Relies on C14 (walk schema), C08 (exact intersection), C07 (well-formed indexes).", ref="4 C02"),
+    "C03": dict(cat="other", technique="configuration-indexed partial evaluation (weights none/array/scalar x policy x format x arity x coordinates) + aggregate-algebra normal forms; sibling cross-check ffunc_X vs xfunc_X; NEP-50 numeric kind of inferred extents; def-use order in strided_dims",
+                text="For count / valid_count / sum / mean: the two constructors normalise to the same row arrays; for every region role each of the array cube's fill branches (no coordinates, bincount, bins - branches the tests never run) stores the reducer the index cube stores per cell, and every index-cube corner is the all-rows instance of its cell value (200+ comparisons); the missing-cell predicates agree; the array cube's inferred extents are Python ints; coordinates are widened before being multiplied by their stride.",
+                note="Declined: numerical agreement within 1e-9 (values). nansum is identified with sum on zero-filled arrays and .T pairs are ignored by the normaliser (recorded assumptions). A form the normaliser does not recognise is UNDECIDED.", ref="4 C03"),
+    "C04": dict(cat="other", technique="predicate-table extraction from every reduce per configuration; def-use identity of the sentinel mask and the returned validity; integrality of counters in the aggregate algebra",
+                text="For both cube types, every shared aggregate, weight mode, policy and report format (300 configurations): the mask that selects missing cells is exactly valid==0 | missing!=0 (propagate), valid==0 (ignore), count==0 (unweighted count), with the weighted valid count behind `valid` for means only; in the pair format the returned validity is the negation of the very mask at which the sentinel return_missing_as[0] is written, and NaN and pair formats use the same mask; exact zero tests in the index cube act only on integral counters or after adjust_zeros(new=0).",
+                note="Declined: that the counters hold the right numbers for given data (values; their definitions are checked by C03). valid_count with plain replacement 0 is excluded, as the property says.", ref="4 C04"),
+    "C05": dict(cat="other", technique="taint/reachability rules over terms: dependence of the differencing write on dim.common, independence of corner values from any encoding, absence of literal coordinate tests, event order in shift_common",
+                text="Decides reachability facts that are necessary for encoding independence: marginal differencing writes at the differenced dimension's own common coordinate (the `0 instead of dim.common` mutant passes every test fixture); grand totals in the corner depend only on fact/weight arrays and the row count; walk, fill closures and reduce never compare a coordinate with an integer literal other than -1 and never read .common; shift_common stores the old common rows before deleting the new common's entries and before rebinding .common, per column in the 2-D branch.",
+                note="Declined: cell-by-cell invariance of every aggregate under re-encoding (values).", ref="4 C05"),
+    "C18": dict(cat="other", technique="predicate extraction for stddev per configuration; sentinel-mask/validity identity; NaN-seeding normal forms of constructor fields; delegation-call table",
+                text="NARROW CLAIM (second sentence only). The stddev missing-cell mask contains valid<2 under both policies; for stddev, quantile, min, max, corrcoef, covariance the pair-format validity is the negation of the mask at which the sentinel is written and that mask is taken from the values before replacement; invalid rows (fact AND weight validity) are NaN-seeded in the constructors and ignore_missing selects by validity / uses nanquantile; each statistic delegates to the documented NumPy routine (quantile/nanquantile axis=0, amin/amax, corrcoef rowvar=False, cov(segment.T, aweights), N-1 divisor).",
+                note="Declined, loudly: per-cell numerical equality with the textbook statistic (floating point). The weighted quantile ignoring a missing value that sorts beyond the quantile (a value-level defect named in the property) is NOT decided by this check.", ref="4 C18"),
+})
+
 NA_REASON = "check not built yet (build in progress; see DESIGN.md section 8)"
 
 
